@@ -109,11 +109,23 @@ func runC01(c *Ctx) {
 	var rejectEdges []ana.Edge
 	rejectEdges = append(rejectEdges, plainEdges(edgesMatching(b, patLenSigNe,
 		"bin<!=>("+patDecA+", nil)", "bin<!=>("+patDecR+", nil)", "bin<!=>("+patDecS+", nil)", "bin<!=>("+patDecS2+", nil)"))...)
-	// top-bits pre-check: sig[63] & m != 0 with m a non-empty subset of the top three bits
+	// top-bits pre-check: any rejecting test of sig[63] alone is sound iff every rejected value has one of the top
+	// three bits set (L < 2^253). Terms are canonical (ana/canon.go): a threshold test in any spelling
+	// (b&0xE0 != 0, b>>5 != 0, b > 0x1f) arrives as `b >= t`; other masks stay `b&m != 0`.
 	for _, ce := range b.CondEdges() {
-		if bd, ok := ana.Match("bin<!=>(bin<&>(load(iaddr(p2, 63)), $m), 0)", ce.Lit); ok {
+		key := "C01.reject-closed.top-bits-mask"
+		if bd, ok := ana.Match("bin<>=>(load(iaddr(p2, 63)), $t)", ce.Lit); ok {
+			t, isInt := bd["$t"].Int()
+			if r.Check(isInt && t >= 32, key, c.P.Pos(ce.Pos()), "sig[63] >= %d rejects; sound iff the threshold is >= 32 = 2^5 (only the top three bits are implied by S < L < 2^253)", t) {
+				rejectEdges = append(rejectEdges, ce.Edge)
+			}
+		} else if bd, ok := ana.Match("bin<==>(load(iaddr(p2, 63)), $t)", ce.Lit); ok {
+			t, isInt := bd["$t"].Int()
+			if r.Check(isInt && t >= 32, key, c.P.Pos(ce.Pos()), "sig[63] == %d rejects; sound iff the value is >= 32", t) {
+				rejectEdges = append(rejectEdges, ce.Edge)
+			}
+		} else if bd, ok := ana.Match("bin<!=>(bin<&>(load(iaddr(p2, 63)), $m), 0)", ce.Lit); ok {
 			m, isInt := bd["$m"].Int()
-			key := "C01.reject-closed.top-bits-mask"
 			if !isInt {
 				r.Undec(key, c.P.Pos(ce.Pos()), "mask is not a constant: %s", bd["$m"])
 				continue
